@@ -65,6 +65,7 @@ static long stall_seen = 0;
 static char fail_match[256];    /* FSFAULT_WRITE_FAIL=<substring of class>:<k>: from the k-th write whose class contains */
 static long fail_k = -1;         /* the substring on, every such write fails with ENOSPC (a disk that has filled up) */
 static long fail_seen = 0;
+static char unlink_fail[256];    /* FSFAULT_UNLINK_FAIL=<substring>: unlink/rmdir of a path below the root that contains it fails with EPERM */
 static long unlink_delay_us = 0; /* FSFAULT_UNLINK_DELAY_US: a slow disk for unlink/rmdir under the root */
 
 static char *fd_rel[MAXFD]; /* relpath of tracked writable fds */
@@ -172,6 +173,8 @@ __attribute__((constructor)) static void init(void) {
             fail_k = atol(k);
         }
     }
+    const char *uf = getenv("FSFAULT_UNLINK_FAIL");
+    if (uf && *uf) strncpy(unlink_fail, uf, sizeof(unlink_fail) - 1);
     const char *ud = getenv("FSFAULT_UNLINK_DELAY_US");
     if (ud && *ud) unlink_delay_us = atol(ud);
     const char *lg = getenv("FSFAULT_LOG");
@@ -468,6 +471,7 @@ int unlink(const char *path) {
     if (!real_unlink) resolve_syms();
     char rel[4096];
     if (active && under_root(AT_FDCWD, path, rel, sizeof(rel))) {
+        if (unlink_fail[0] && strstr(rel, unlink_fail)) { errno = EPERM; return -1; }
         int act = effect("unlink", rel, 0);
         int r = real_unlink(path);
         if (act >= 2) die();
@@ -479,6 +483,7 @@ int unlinkat(int dirfd, const char *path, int flags) {
     if (!real_unlinkat) resolve_syms();
     char rel[4096];
     if (active && under_root(dirfd, path, rel, sizeof(rel))) {
+        if (unlink_fail[0] && strstr(rel, unlink_fail)) { errno = EPERM; return -1; }
         if (unlink_delay_us > 0) usleep((useconds_t)unlink_delay_us);
         int act = effect((flags & AT_REMOVEDIR) ? "rmdir" : "unlink", rel, 0);
         int r = real_unlinkat(dirfd, path, flags);
@@ -491,6 +496,7 @@ int rmdir(const char *path) {
     if (!real_rmdir) resolve_syms();
     char rel[4096];
     if (active && under_root(AT_FDCWD, path, rel, sizeof(rel))) {
+        if (unlink_fail[0] && strstr(rel, unlink_fail)) { errno = EPERM; return -1; }
         int act = effect("rmdir", rel, 0);
         int r = real_rmdir(path);
         if (act >= 2) die();
